@@ -32,6 +32,9 @@ type Cfg struct {
 	CacheSize   int // copy-on-write cache capacity (0 = default)
 	MaxParams   int // WithMaxRouteParams (0 = default)
 	MaxKeyBytes int // WithMaxRouteParamKeyBytes (0 = default)
+	// NoRedirectSpy leaves out the observer middleware on the built-in redirect handler, so that a router can be built
+	// without any global middleware at all (requests answered by that handler then leave no Hit).
+	NoRedirectSpy bool
 }
 
 func (c Cfg) String() string {
@@ -163,7 +166,9 @@ func Build(cfg Cfg, extra ...fox.GlobalOption) (*World, error) {
 		opts = append(opts, fox.WithMaxRouteParamKeyBytes(uint16(cfg.MaxKeyBytes)))
 	}
 	opts = append(opts, extra...)
-	opts = append(opts, fox.WithMiddlewareFor(fox.RedirectHandler, redirectSpy))
+	if !cfg.NoRedirectSpy {
+		opts = append(opts, fox.WithMiddlewareFor(fox.RedirectHandler, redirectSpy))
+	}
 	r, err := fox.New(opts...)
 	if err != nil {
 		return nil, err
